@@ -378,7 +378,7 @@ def chunks(tier, seed):
     if tier == "quick":
         nrand, npts = 6000, 12
     elif tier == "thorough":
-        nrand, npts = 200000, 400
+        nrand, npts = 800000, 1200
     else:
         nrand, npts = 20000, 40
     per = max(1, nrand // 16)
